@@ -23,6 +23,9 @@ pub fn palette() -> Vec<(&'static str, Vec<u8>)> {
         ("206_suffix", req("GET", "/file.txt", &[("Range", "bytes=-10")], b"")),
         ("206_multipart", req("GET", "/file.txt", &[("Range", "bytes=0-9,20-29,290-299")], b"")),
         ("416", req("GET", "/file.txt", &[("Range", "bytes=900-1000")], b"")),
+        ("range_at_end_of_file", req("GET", "/file.txt", &[("Range", "bytes=300-")], b"")),
+        ("range_suffix_zero", req("GET", "/file.txt", &[("Range", "bytes=-0")], b"")),
+        ("range_last_byte", req("GET", "/file.txt", &[("Range", "bytes=299-299")], b"")),
         ("404", get("/missing.txt")),
         ("400_parse", b"BREW / HTTP/1.1\r\n\r\n".to_vec()),
         ("400_version", b"GET / HTTP/9.9\r\n\r\n".to_vec()),
